@@ -18,10 +18,14 @@ var registry = map[string]checkDef{
 	"C04": {"exploration", C04},
 	"C05": {"exploration", C05},
 	"C06": {"exploration", C06},
+	"C07": {"exploration", C07},
+	"C08": {"exploration", C08},
+	"C09": {"exploration", C09},
 	"C10": {"exploration", C10},
 	"C11": {"exploration", C11},
 	"C14": {"exploration", C14},
 	"C16": {"exploration", C16},
+	"C15": {"exploration", C15},
 	"C17": {"exploration", C17},
 	"C19": {"exploration", C19},
 }
